@@ -478,7 +478,7 @@ impl Prop for C01 {
     }
     fn meta(&self, _ctx: &Ctx) -> Value {
         json!({"floor_evaluations": 10000, "floor_distinct": 500, "plain_pass": "quick",
-               "deferred_death_classes": ["alloc-failure", "stack-overflow"],
+               "deferred_death_classes": ["alloc-failure"],
                "assumptions": ["characters are the 256 byte values (the loaders and terminals feed bytes as chars 0..=255)",
                                "work-budget / allocation / nesting events are resource exhaustion and are decided by C03, not C01 (counted as resource_events_deferred_to_C03)",
                                "a panic on a sixel decode thread counts as a C01 violation (sixel is one of the sub-languages)"]})
